@@ -66,9 +66,20 @@ Aspect(ounset, nunset, equal) ==
 \* when its info is taken (index._info_from_entry -> _get_meta): named behaviour
 EffMeta(e) == IF IsEntry(e) /\ e.m = NoneV /\ HasHash(e) THEN "empty" ELSE e.m
 
+\* meta_cmp_key: metadata present on both sides is compared through a key function; whether metadata is present at all
+\* is decided on the metadata itself, never on the key (a key function may well map a present meta to None):
+\*   "none" - no key function;  "mode" - (isdir, isexec), what checkout compares;
+\*   "cks"  - push._meta_checksum: the file system's checksum field (etag), None for a file that has none yet
+ExecMetas == {"f2"}
+CksOf(m) == IF m \in {"f3", "f4"} THEN "E1" ELSE "nokey"
+KeyVal(key, m) ==
+    IF key = "mode" THEN (IF m = "d" THEN "kd" ELSE IF m \in ExecMetas THEN "kx" ELSE "kp")
+    ELSE IF key = "cks" THEN (IF m = "d" THEN "d" ELSE CksOf(m))
+    ELSE m
+
 \* the table of _diff_entry; mode \in {"entry", "hash", "meta"}
-Table(o, n, mode) ==
-    LET md == Aspect(UnsetM(EffMeta(o)), UnsetM(EffMeta(n)), EffMeta(o) = EffMeta(n))
+Table(o, n, mode, key) ==
+    LET md == Aspect(UnsetM(EffMeta(o)), UnsetM(EffMeta(n)), KeyVal(key, EffMeta(o)) = KeyVal(key, EffMeta(n)))
         hd == Aspect(UnsetH(o.h), UnsetH(n.h), o.h = n.h)
     IN  IF mode = "meta" THEN md
         ELSE IF mode = "hash" THEN hd
@@ -83,14 +94,14 @@ Table(o, n, mode) ==
 \* one aspect is set on one side only ("half specified") - also plain "modify"
 HalfSpecified(o, n) ==
     IsEntry(o) /\ IsEntry(n) /\ (UnsetH(o.h) # UnsetH(n.h) \/ UnsetM(EffMeta(o)) # UnsetM(EffMeta(n)))
-Allowed(o, n, mode) ==
-    {Table(o, n, mode)} \cup (IF mode = "entry" /\ HalfSpecified(o, n) THEN {"modify"} ELSE {})
+Allowed(o, n, mode, key) ==
+    {Table(o, n, mode, key)} \cup (IF mode = "entry" /\ HalfSpecified(o, n) THEN {"modify"} ELSE {})
 
 Either(old, new) == {k \in Keys : IsEntry(old[k]) \/ IsEntry(new[k])}
 Mode(opts) == IF opts.hash_only THEN "hash" ELSE IF opts.meta_only THEN "meta" ELSE "entry"
 Reported(typ, opts) == typ # "unchanged" \/ opts.unchanged
 FlatDiff(old, new, opts) ==
-    {<<Table(old[k], new[k], Mode(opts)), k>> : k \in Either(old, new)}
+    {<<Table(old[k], new[k], Mode(opts), opts.key), k>> : k \in Either(old, new)}
 
 (****************************** the BFS as coded ***************************)
 VARIABLES old, new, opts, queue, out, pc
@@ -110,7 +121,7 @@ Visit ==
            \* list (shallow) looks absent on that side
            oe(k) == IF k \in fr.o THEN old[k] ELSE NoEntry
            ne(k) == IF k \in fr.n THEN new[k] ELSE NoEntry
-           typ(k) == Table(oe(k), ne(k), Mode(opts))
+           typ(k) == Table(oe(k), ne(k), Mode(opts), opts.key)
            skip(k) == /\ opts.hash_only /\ ~opts.unchanged /\ typ(k) = "unchanged"
                       /\ HasHash(oe(k)) /\ IsDirHash(oe(k).h)
            descend(k) == ~skip(k) /\ ((k \in fr.o /\ InfoDir(old, k)) \/ (k \in fr.n /\ InfoDir(new, k)))
@@ -140,12 +151,12 @@ C08_Keys(o, n, op, r) ==
     /\ got \subseteq Either(o, n)
     /\ op.unchanged => got = Either(o, n) \cap Scope(o, n, op)
 C08_Labels(o, n, op, r) ==
-    \A c \in r : c[2] \in Scope(o, n, op) => c[1] \in Allowed(o[c[2]], n[c[2]], Mode(op))
+    \A c \in r : c[2] \in Scope(o, n, op) => c[1] \in Allowed(o[c[2]], n[c[2]], Mode(op), op.key)
 \* nothing that differs in the compared aspect is hidden (hash_only / meta_only / the
 \* unchanged-hashed-subtree shortcut)
 C08_NothingHidden(o, n, op, r) ==
     \A k \in Either(o, n) \cap Scope(o, n, op) :
-        ("unchanged" \notin Allowed(o[k], n[k], Mode(op))) => \E c \in r : c[2] = k /\ c[1] # "unchanged"
+        ("unchanged" \notin Allowed(o[k], n[k], Mode(op), op.key)) => \E c \in r : c[2] = k /\ c[1] # "unchanged"
 C08_NoUnchangedUnlessAsked(op, r) == ~op.unchanged => \A c \in r : c[1] # "unchanged"
 
 Inv_Done ==
